@@ -7,13 +7,15 @@ CHECK = {
         "the scripted net.Conn stands for the real socket: Read hands out scripted chunks and errors, Write records; concurrency between the reading and the writing goroutine of a real connection is represented by the order of the calls (tracingHTTP2Conn serialises frame handling under one mutex)",
         "golang.org/x/net/http2 Framer (write side) and hpack.Encoder produce well-formed frames; they are used only to build scripts, never as the oracle",
         "arbitrary byte strings are enumerated completely only up to 2 (quick) / 3 (thorough) bytes plus every single-field corruption of well-formed frames; longer arbitrary inputs are outside the bound",
+        "a Read of the underlying conn may return n > 0 together with an error (io.Reader contract; crypto/tls does so for the last record before close_notify); after a non-timeout read error the scripts perform no further I/O but Close",
+        "HPACK dynamic-table-size updates in the scripts are legal: every size is within the SETTINGS_HEADER_TABLE_SIZE the receiving endpoint advertised (4096 when absent) and the advertisement was acknowledged before the update",
         "the retry collector's timer runs in testing/synctest virtual time; no wall-clock time is waited for",
     ],
     "manifest": {
         "engine": "ENUM",
         "technique": "bounded-exhaustive enumeration against a reference model",
-        "text": "TracingHTTP2Conn over a scripted net.Conn, as client and as server. (a) every byte string of length <=2/<=3 after/instead of the client preface, every single-field corruption (type, each flag bit, length +-1, stream id, payload ends, preface bytes) of every frame of 16 two-call exchanges (two of them with header blocks of 3-4 fragments) with the connection ending after any later frame, every composition of 19-24 byte exchanges into calls, every I/O outcome at every call: Read/Write/Close must return exactly what the underlying conn returned, no panic. (b) two calls (streams 1 and 3; request headers, response headers, trailers and trailers-only blocks as HEADERS alone, HEADERS + 1 CONTINUATION and HEADERS + 2..3 CONTINUATION (blocks of 3 and 4 fragments, cut anywhere, also inside a field), 0-2 DATA, one enveloped message spread over 3 and 4 DATA frames of its stream (request side, response side, both; alone and followed by a second message in its own frame or starting in the frame of the last piece), END_STREAM variants, trailers / trailers-only, RST_STREAM by either side, REFUSED_STREAM + retry, GOAWAY(last-stream-id 1), late frames (response HEADERS / DATA / trailers, also with CONTINUATION, that were in flight and arrive after the client's RST_STREAM or after the GOAWAY that dropped the stream: they belong to no traced stream but their header blocks add entries to the HPACK dynamic table which the later response blocks of the other call refer to by index), one call without test name), HPACK encoded in emission order with one hpack.Encoder per direction (dynamic table on; per-call custom fields plus fields repeated by every call): all well-formed interleavings x {whole runs, per frame, per byte, every single cut} x {client, server}; each named call must yield exactly one completed trace equal to the script-derived model (request line, headers, request/response messages with indices, status, response headers, trailers, end/reset), the nameless call none, the retried call the retry's.",
-        "note": "Scripted conn instead of a socket; frame scripts built with x/net/http2 + hpack encoders (trusted as generators only); every single cut is combined with all interleavings only for a 6x6 set of shapes (thorough) and with the first/middle/last interleaving otherwise. Shapes with header blocks of 3-4 fragments are paired with 5 partner shapes and with each other, late shapes with 3 (thorough 9) partner shapes and each other, shapes with a message in 3-4 DATA frames with 1-2 partner shapes, not with every shape. Response payload bytes are small values so that a tracer that loses its place in a body cannot be made to allocate gigabytes by a bogus envelope length (it is reported through its wrong messages).",
+        "text": "TracingHTTP2Conn over a scripted net.Conn, as client and as server. (a) every byte string of length <=2/<=3 after/instead of the client preface, every single-field corruption (type, each flag bit, length +-1, stream id, payload ends, preface bytes) of every frame of 17 two-call exchanges (two of them with header blocks of 3-4 fragments, one with HPACK dynamic-table-size updates in both directions) with the connection ending after any later frame, every composition of 19-24 byte exchanges into calls, every I/O outcome at every call: Read/Write/Close must return exactly what the underlying conn returned, no panic. (b) two calls (streams 1 and 3; request headers, response headers, trailers and trailers-only blocks as HEADERS alone, HEADERS + 1 CONTINUATION and HEADERS + 2..3 CONTINUATION (blocks of 3 and 4 fragments, cut anywhere, also inside a field), 0-2 DATA, one enveloped message spread over 3 and 4 DATA frames of its stream (request side, response side, both; alone and followed by a second message in its own frame or starting in the frame of the last piece), END_STREAM variants, trailers / trailers-only, RST_STREAM by either side, REFUSED_STREAM + retry, GOAWAY(last-stream-id 1), late frames (response HEADERS / DATA / trailers, also with CONTINUATION, that were in flight and arrive after the client's RST_STREAM or after the GOAWAY that dropped the stream: they belong to no traced stream but their header blocks add entries to the HPACK dynamic table which the later response blocks of the other call refer to by index), one call without test name), HPACK encoded in emission order with one hpack.Encoder per direction (dynamic table on; per-call custom fields plus fields repeated by every call), optionally following an HPACK table-size history per direction (8 quick / 24 thorough schedules: the receiver advertises SETTINGS_HEADER_TABLE_SIZE 0 / 128 / 4097 / 64 KiB / 2^32-1 in the prologue or in a SETTINGS frame mid-connection, the encoder announces size updates to 0, 128, 4095-4097, 16 KiB, 64 KiB, 2^32-1 at the start of header block 0, 1 or 2 of the direction, shrink then grow in one block or in consecutive blocks; request direction, response direction, both; also in late blocks and split over CONTINUATION frames): all well-formed interleavings x {whole runs, per frame, per byte, every single cut} x {client, server}; connection endings Close / failing Close / virtual time passing / read error {io.EOF, reset} x {in a Read of its own, together with the last chunk (whole last run, last frame, last byte, every proper suffix of the last run)}; a read timeout (0, timeout) between any two frames and (n>0, timeout) on any Read of the whole / frame partitions and at every cut of the read direction; each named call must yield exactly one completed trace equal to the script-derived model (request line, headers, request/response messages with indices, status, response headers, trailers, end/reset), the nameless call none, the retried call the retry's.",
+        "note": "Table-size histories are crossed with 5 (thorough 8) shape pairs, not with every pair; error-with-last-chunk endings under all partitions and (n>0, timeout) reads only for the first/middle/last interleaving of a pair (three ending combinations for every interleaving that is the first to end with its particular run of frames; (n>0, timeout) mid-frame only for the first interleaving); (1, timeout) on every byte of the per-byte partition is not enumerated. Scripted conn instead of a socket; frame scripts built with x/net/http2 + hpack encoders (trusted as generators only); every single cut is combined with all interleavings only for a 6x6 set of shapes (thorough) and with the first/middle/last interleaving otherwise. Shapes with header blocks of 3-4 fragments are paired with 5 partner shapes and with each other, late shapes with 3 (thorough 9) partner shapes and each other, shapes with a message in 3-4 DATA frames with 1-2 partner shapes, not with every shape. Response payload bytes are small values so that a tracer that loses its place in a body cannot be made to allocate gigabytes by a bogus envelope length (it is reported through its wrong messages).",
         "design_ref": "DESIGN.md §2.2, §4 C15",
     },
     "units": [
@@ -21,13 +23,13 @@ CHECK = {
             "name": "c15-attr", "pkg": TR, "harness": HARNESS,
             "test": "^TestVerifC15Attr$",
             "shards": {"quick": 16, "thorough": 16},
-            "budget_s": {"quick": 25, "thorough": 240},
+            "budget_s": {"quick": 28, "thorough": 240},
         },
         {
             "name": "c15-transp", "pkg": TR, "harness": HARNESS,
             "test": "^TestVerifC15Transp$",
             "shards": {"quick": 16, "thorough": 16},
-            "budget_s": {"quick": 35, "thorough": 240},
+            "budget_s": {"quick": 32, "thorough": 240},
         },
     ],
 }
